@@ -169,6 +169,9 @@ def binop(op, a, b):
         if ta != tb:
             return int(op == '!=')
         # arrays, mappings, buffers compare by identity; two constructor expressions never denote the same one
+        # (whether two empty arrays are the same array is not specified)
+        if ta == 'a' and not a and not b:
+            raise RefUndef()
         return int(op == '!=')
     if op == '+':
         if ta == 'i' and tb == 'i':
